@@ -155,7 +155,8 @@ def literature():
 def render_input(rng, g, toks):
     chars = [g.terms[t] for t in toks]
     sep = rng.choice(["", " ", "  "]) if g.layout is None else rng.choice(["", " "])
-    return sep.join(chars)
+    # trailing / leading whitespace: suffixes that are whitespace only (the STOP recognizer must match at the very end only)
+    return rng.choice(["", "", " "]) + sep.join(chars) + rng.choice(["", "", " ", "\n", " \t"])
 
 
 def bnf_case(rng, kinds=False, layout=None, nterm=None):
@@ -713,6 +714,14 @@ def mirror_tie(rep, cases, sel):
                 continue
             rep.count("mirror:inputs")
             rep.count("mirror:matrix-entries", got.count("@"))
+            # outcome class of the COMPILED generated parser vs the real runtime driven from the dumped table
+            pa = (c.beh["A"]["P"].get(k) or "").split(" ")[0]
+            pv = lf.klass(lc.results[k]) if k < len(lc.results) else ""
+            if pa in ("ok", "err") and pv in ("ok", "err"):
+                rep.count("mirror:outcomes-compared")
+                if pa != pv:
+                    c.problems.append(("impl≠oracle", f"the compiled generated parser answers `{pa}` on input {inp!r} where the runtime driven "
+                                       f"from the computed table answers `{pv}` (settings {' '.join(c.settings)})"))
             if got.strip() != lc.matrices[k].strip():
                 c.problems.append(("impl≠oracle" if "!" in got else "mirror",
                                    f"generated recognizers and their harness mirror disagree on input {inp!r}: generated `{got.strip()[:200]}` "
